@@ -147,7 +147,7 @@ def make_jobs(ctx, focus: str):
     r = ctx.rng
     names = search.all_names()
     jobs = []
-    reps = 1 if ctx.quick else 3
+    reps = 1 if ctx.quick else 6
     for nm in names:
         for _ in range(reps):
             lo, hi = r.choice(BOUNDS)
